@@ -108,6 +108,7 @@ def formulas(ctx: Ctx, rule="FORMULA"):
                     ctx.violate(rule, site, where, f"{first.show()} differs from sibling {ref[1]}: {ref[0].show()}")
     zero_rule(ctx, variants)
     arg_rule(ctx, variants)
+    generic_compile_rule(ctx)
     return {r: {d: v[0] for d, v in dd.items()} for r, dd in table.items()}
 
 
@@ -315,6 +316,31 @@ def arg_rule(ctx: Ctx, variants, rule="ARG"):
             ctx.decide(bad is None, rule, name, (fi, bad) if bad is not None else fi, "the formula is applied to the argument as passed (element-wise, any numeric type)",
                        f"`{U(bad)[:80] if bad is not None else ''}` replaces the argument before the formula is applied: the result is no longer the element-wise conversion of what the caller passed "
                        "(reductions change the values and the shape of array arguments; untyped array coercion turns Python ints into fixed-width integers whose powers overflow)")
+
+
+def generic_compile_rule(ctx: Ctx, rule="ARG"):
+    """The compiled variants accept what the plain ones accept (scalars and arrays of any shape and numeric dtype): they are
+    compiled lazily per argument type.  Explicit numba signatures (`jit(signature=[...])`, `njit("float64(float64)")`) pin the
+    accepted types, so other arrays raise TypeError while the sibling variants convert them."""
+    m = ctx.model
+    mod = m.modules.get(SPH)
+    if mod is None:
+        return 0
+    bad = []
+    n = 0
+    for c in ast.walk(mod.tree):
+        if isinstance(c, ast.Call):
+            nm = (dotted(c.func) or "").split(".")[-1]
+            if nm in ("jit", "njit", "vectorize", "guvectorize", "generated_jit"):
+                n += 1
+                sig = [k for k in c.keywords if k.arg in ("signature", "signature_or_function", "locals")]
+                typed = [a for a in c.args if isinstance(a, (ast.Constant, ast.List, ast.Tuple)) or (isinstance(a, ast.Name) and a.id.startswith("sig"))]
+                if sig or typed:
+                    bad.append(c)
+    ctx.decide(not bad, rule, f"{SPH}:compiled-generic", bad[0] if bad else None, f"all {n} numba compilations are lazy (specialised per argument type)",
+               f"`{U(bad[0])[:70] if bad else ''}` compiles with explicit signatures: arguments of another shape or dtype (2-d or 0-d arrays, integer or float32 arrays) raise TypeError in this variant only — "
+               "the variants no longer agree for all scalar and array arguments")
+    return 1
 
 
 def stateless_rule(ctx: Ctx, rule="STATELESS"):
